@@ -95,6 +95,23 @@ func oapiPrint(fset *token.FileSet, n any) string {
 
 func oapiCanon(s string) string { return strings.Join(strings.Fields(s), " ") }
 
+// oapiDiff points at the first place where the text now differs from the expected one.
+func oapiDiff(got, want string) string {
+	i := 0
+	for i < len(got) && i < len(want) && got[i] == want[i] {
+		i++
+	}
+	from := i - 60
+	if from < 0 {
+		from = 0
+	}
+	to := i + 100
+	if to > len(got) {
+		to = len(got)
+	}
+	return fmt.Sprintf("differs at byte %d: ...%s...", i, got[from:to])
+}
+
 func oapiStringLit(e ast.Expr) (string, bool) {
 	bl, ok := e.(*ast.BasicLit)
 	if !ok || bl.Kind != token.STRING {
@@ -269,7 +286,7 @@ func oapiRoutes(fset *token.FileSet, f *ast.File) ([]oapiRoute, error) {
 		pre = append(pre, oapiPrint(fset, stmts[i]))
 	}
 	if got := strings.Join(pre, " "); got != oapiCanon(preamble) {
-		return nil, fmt.Errorf("HandlerWithOptions: unexpected statements before the route registrations: %s", got)
+		return nil, fmt.Errorf("HandlerWithOptions: unexpected statements before the route registrations; %s", oapiDiff(got, oapiCanon(preamble)))
 	}
 	for ; i < len(stmts); i++ {
 		if rs, ok := stmts[i].(*ast.ReturnStmt); ok && i == len(stmts)-1 && len(rs.Results) == 1 && oapiPrint(fset, rs.Results[0]) == "r" {
@@ -432,7 +449,7 @@ func oapiSameText(fset *token.FileSet, f *ast.File, name, want string) error {
 		return fmt.Errorf("func %s not found", name)
 	}
 	if got := oapiPrint(fset, fd); got != oapiCanon(want) {
-		return fmt.Errorf("func %s no longer has the text the model was written from; now: %s", name, got)
+		return fmt.Errorf("func %s no longer has the text the model was written from; %s", name, oapiDiff(got, oapiCanon(want)))
 	}
 	return nil
 }
@@ -549,7 +566,7 @@ func oapiGuardSwitch(fset *token.FileSet, f *ast.File) ([][2]string, error) {
 		head = append(head, oapiPrint(fset, s))
 	}
 	if got := strings.Join(head, " "); got != oapiCanon(oapiFindOperationHead) {
-		return nil, fmt.Errorf("findOperation: the path lookup no longer has the text the model was written from; now: %s", got)
+		return nil, fmt.Errorf("findOperation: the path lookup no longer has the text the model was written from; %s", oapiDiff(got, oapiCanon(oapiFindOperationHead)))
 	}
 	sw, ok := fd.Body.List[n-1].(*ast.SwitchStmt)
 	if !ok || sw.Init != nil || sw.Tag == nil || oapiPrint(fset, sw.Tag) != "method" {
@@ -624,7 +641,7 @@ func oapiMount(fset *token.FileSet, f *ast.File) (string, error) {
 	if fd := oapiFuncDecl(f, "Server", "setupAPIRouter"); fd == nil {
 		return "", fmt.Errorf("method Server.setupAPIRouter not found")
 	} else if got := oapiPrint(fset, fd); got != oapiCanon(oapiSetupAPIRouterText) {
-		return "", fmt.Errorf("Server.setupAPIRouter no longer has the text the model was written from; now: %s", got)
+		return "", fmt.Errorf("Server.setupAPIRouter no longer has the text the model was written from; %s", oapiDiff(got, oapiCanon(oapiSetupAPIRouterText)))
 	}
 	fd := oapiFuncDecl(f, "Server", "setupRouter")
 	if fd == nil {
